@@ -1,8 +1,53 @@
 import GceTcb.Base.Line
-/- Driver handler for stream `c08tdx` (stub: replaced when the property's model lands). -/
+import GceTcb.Drive.C05
+/- Driver handler for stream `c08tdx`: outcome classes of the TDX firmware-analysis entry points
+   (computed without materialising declared memory) and the model's tick / allocation counters. -/
 namespace GceTcb.Drive.C08Tdx
-open GceTcb
+open GceTcb GceTcb.Intervals GceTcb.TdxMeta GceTcb.TdxHob GceTcb.Mrtd GceTcb.Drive.C05
 
-def handle (_f : Fields) : String := "unimplemented"
+def cls : Outcome Unit → String
+  | .ok _ => "ok"
+  | .err c => "reject=" ++ c
+  | .panic _ => "panic"
+
+def unit {α : Type} : Outcome α → Outcome Unit
+  | .ok _ => .ok ()
+  | .err c => .err c
+  | .panic s => .panic s
+
+/-- class of tdx.UnsignedTDX without hashing -/
+def unsignedClass (table : List (String × Nat × Nat × Nat)) (fw : Bytes) (early : Bool) : List String → Outcome Unit
+  | [] => mrtdClass {} fw
+  | name :: rest =>
+    match machineTypeToRAMBanks table name with
+    | .ok banks =>
+      match mrtdClass { banks := banks, measureAllRegions := true } fw with
+      | .ok _ =>
+        -- `meas2, _ := MRTD(options, uefi)`: an error is discarded, a panic is not
+        match (if early then mrtdClass { banks := banks, measureAllRegions := true, disableUnacceptedMemory := true } fw else .ok ()) with
+        | .panic p => .panic p
+        | _ => unsignedClass table fw early rest
+      | .err c => .err c
+      | .panic p => .panic p
+    | .err c => .err c
+    | .panic p => .panic p
+
+def handle (f : Fields) : String :=
+  match f.get "op" with
+  | "mrtd" =>
+    let o : LaunchOptions := { banks := parseGprs (f.get "banks"), disableUnacceptedMemory := f.bool "du", measureAllRegions := f.bool "ma" }
+    cls (mrtdClass o (f.bytes "img"))
+  | "regions" =>
+    let fw := f.bytes "img"
+    let banks := parseGprs (f.get "banks")
+    match f.nat "mode" with
+    | 0 => cls (unit (extractDefault fw))
+    | 1 => cls (unit (extractTDHOBBug fw banks))
+    | _ => cls (unit (extractNoUnacceptedMemory fw banks))
+  | "unsigned" => cls (unsignedClass Gen.TdxConsts.shapes (f.bytes "img") (f.bool "early") (f.list "shapes"))
+  | "unacc" =>
+    let out := unacceptedMemRanges (parseGprs (f.get "priv")) (parseGprs (f.get "ram"))
+    "ok n=" ++ toString out.length
+  | _ => "bad-op"
 
 end GceTcb.Drive.C08Tdx
